@@ -225,3 +225,66 @@ def same_key_rule(res, fx, rule):
                            '(no filter diff is sent, the marks are counted twice)' % (f.q, c.args()[0].text(30), gpd[0].text(50)))
     if n_key < 1:
         raise AnalysisBroken(rule + ': the existing-subscription lookup (GetEntries()[GetPathDepth(p)].Get(p)) was not found')
+
+
+def nullable_results_rule(res, fx, rule):
+    """two places where a NULL can come from client-controlled input and must be tested before it is dereferenced:
+    (a) GetStringMatcherFromPool(pattern) returns a NULL reference when the pattern does not compile;
+    (b) the DataNode argument of QueryFilter::Matches() is optional (PathMatcher::MatchesPath passes NULL, e.g. when a client jettisons queued results)."""
+    n = 0
+    for f in sorted((g for g in fx.funcs.values() if g.full), key=lambda g: (g.file, g.line, g.id)):
+        for v in f.walk():
+            if v['k'] != 'VarDecl' or not v['ch'] or v.get('d') is None:
+                continue
+            init = A.strip_casts(v['ch'][0])
+            srcs = [x for x in init.walk() if x.is_call() and (x.get('q') or '') == 'muscle::GetStringMatcherFromPool' and len([a for a in x.args() if a['k'] != 'CXXDefaultArgExpr']) >= 1]
+            if not srcs:
+                continue
+            n += 1
+            bad = None
+            for u in f.walk():
+                if u['k'] != 'DeclRefExpr' or u.get('d') != v['d'] or u['i'] == v['i']:
+                    continue
+                par = u.parent
+                # uses that are themselves the test
+                tested = False
+                for (cn, t) in G.atoms_at(f, u):
+                    n0, pol = P.strip_not(cn, t)
+                    if any(y['k'] == 'DeclRefExpr' and y.get('d') == v['d'] for y in n0.walk()):
+                        k_ = P.is_status_test(n0)
+                        if (k_ == 'ok' and pol) or (k_ == 'err' and not pol) or (k_ is None and pol):
+                            tested = True
+                if tested:
+                    continue
+                # is this use a store (argument of a call other than its own operator()/status test) or a dereference?
+                anc = [a for a in u.ancestors()]
+                in_test = any(a['k'] in ('IfStmt', 'ConditionalOperator', 'WhileStmt') and a['ch'] and u['i'] in set(y['i'] for y in (a.role('cond') if a['k'] != 'ConditionalOperator' else a['ch'][0]).walk()) for a in anc if (a.role('cond') if a['k'] != 'ConditionalOperator' else a['ch'][0]) is not None)
+                if in_test:
+                    continue
+                if par is not None and par.is_call():
+                    q = par.get('q') or ''
+                    if re.search(r'::(IsOK|IsError|GetStatus)$', q):
+                        continue
+                    bad = bad or u
+            res.ob(rule, f.where(bad) if bad is not None else f.where(v), '%s: the matcher obtained for a pattern is tested for NULL before it is stored or used' % f.q.split('::')[-1], bad is None, function=f.q,
+                   key='%s|%s|nullable-matcher:%s' % (rule, f.q, v.get('n')),
+                   message='%s uses `%s` (from GetStringMatcherFromPool(pattern), which returns a NULL reference when the pattern does not compile) at line %s without a NULL test: a client that '
+                           'supplies a malformed pattern makes the server dereference NULL later (e.g. the next connection evaluated against a stored ban pattern)' % (f.q, v.get('n'), bad.get('l') if bad is not None else ''))
+    m = 0
+    for f in sorted((g for g in fx.funcs.values() if g.full and g.q.endswith('QueryFilter::Matches') and len(g.params) >= 2 and 'DataNode' in g.ptype(g.params[1])), key=lambda g: (g.file, g.line, g.id)):
+        d = g_d = f.params[1].get('d')
+        derefs = [x for x in f.walk() if x['k'] == 'MemberExpr' and x.get('arrow') and x['ch'] and A.strip_casts(x['ch'][0])['k'] == 'DeclRefExpr' and A.strip_casts(x['ch'][0]).get('d') == d]
+        derefs += [x for x in f.walk() if x['k'] == 'UnaryOperator' and x.get('op') == '*' and A.strip_casts(x['ch'][0]).get('d') == d and A.strip_casts(x['ch'][0])['k'] == 'DeclRefExpr']
+        if not derefs:
+            continue
+        m += 1
+        bad = None
+        for x in derefs:
+            if not any(A.strip_casts(cn)['k'] == 'DeclRefExpr' and A.strip_casts(cn).get('d') == d and t for (cn, t) in G.atoms_at(f, x)):
+                bad = bad or x
+        res.ob(rule, f.where(bad) if bad is not None else f.where(), '%s dereferences its optional DataNode argument only after testing it' % f.q.split('::')[-2], bad is None, function=f.q,
+               key='%s|%s|optional-node' % (rule, f.q.split('<')[0]),
+               message='%s dereferences its DataNode argument at line %s without a NULL test: PathMatcher::MatchesPath() evaluates filters with no node (a client that sends '
+                       'PR_COMMAND_JETTISONRESULTS with such a filter while replies are queued crashes the server)' % (f.q, bad.get('l') if bad is not None else ''))
+    if n < 1 or m < 1:
+        raise AnalysisBroken('%s: nullable sources not found (matcher results %d, Matches() implementations dereferencing the node %d)' % (rule, n, m))
